@@ -91,6 +91,10 @@ enum Op {
 #[derive(Clone, Debug, Serialize, Deserialize)]
 struct Case {
     ops: Vec<Op>,
+    /// how the collectors are handed to the library: 0 by value, 1 in an `Arc`, 2 as
+    /// `Box<dyn Collect>`, 3 through `Dispatch::from_static` (leaked on purpose)
+    #[serde(default)]
+    wrap: u8,
 }
 
 #[derive(Default)]
@@ -149,9 +153,19 @@ fn run_case(case: &Case) -> Outcome {
                 }
                 let k = insts.len();
                 let spec2 = spec.clone();
+                let wrap = case.wrap % 4;
                 let r = st.run(t, move |_| {
                     let (col, s) = RecCollector::new(k as u32, spec2, false);
-                    (Dispatch::new(col), s)
+                    let d = match wrap {
+                        0 => Dispatch::new(col),
+                        1 => Dispatch::new(Arc::new(col)),
+                        2 => {
+                            let b: Box<dyn tracing_core::Collect + Send + Sync> = Box::new(col);
+                            Dispatch::new(b)
+                        }
+                        _ => Dispatch::from_static(Box::leak(Box::new(col))),
+                    };
+                    (d, s)
                 });
                 match r {
                     Ok((d, s)) => {
@@ -400,8 +414,8 @@ impl Property for C01 {
         // prelude: a few collectors exist and are installed, so that most emissions happen
         // under a current collector with other live collectors around
         let prelude = proptest::collection::vec((0u8..NT as u8, 0u8..NSLOT as u8, spec_strategy(), any::<bool>()), 0..4);
-        (prelude, proptest::collection::vec(op, 1..max))
-            .prop_map(|(pre, ops)| {
+        (prelude, proptest::collection::vec(op, 1..max), prop_oneof![3 => Just(0u8), 1 => Just(1u8), 1 => Just(2u8), 1 => Just(3u8)])
+            .prop_map(|(pre, ops, wrap)| {
                 let mut all = vec![];
                 for (t, c, spec, install) in pre {
                     all.push(Op::Create { t, c, spec });
@@ -410,7 +424,7 @@ impl Property for C01 {
                     }
                 }
                 all.extend(ops);
-                Case { ops: all }
+                Case { ops: all, wrap }
             })
             .boxed()
     }
